@@ -734,7 +734,7 @@ func newWorldKind(arity int, wk string) *world {
 	return w
 }
 
-func (w *world) source(op Op) string {
+func (w *world) source(op Op) (out string) {
 	params := []string{"a", "b", "c"}
 	switch op.K {
 	case "def":
@@ -753,7 +753,13 @@ func (w *world) source(op Op) string {
 		body := ""
 		switch op.Qual {
 		case "around":
-			// next-method-p must agree with what call-next-method then does
+			// next-method-p must agree with what call-next-method then does;
+			// a third of the arounds hand their arguments on explicitly
+			cnm := "(call-next-method)"
+			if op.ID%3 == 0 {
+				cnm = fmt.Sprintf("(call-next-method %s)", strings.Join(params[:len(op.Specs)], " "))
+			}
+			defer func() { out = strings.ReplaceAll(out, "(call-next-method)", cnm) }()
 			body = fmt.Sprintf(`(sim-emit (if (next-method-p) "in%d" "in%d-no-next")) (let ((r (call-next-method))) (sim-emit "out%d") r)`, op.ID, op.ID, op.ID)
 			if op.Twice {
 				body = fmt.Sprintf(`(sim-emit (if (next-method-p) "in%d" "in%d-no-next")) (call-next-method) (sim-emit "again%d") (let ((r (call-next-method))) (sim-emit "out%d") r)`, op.ID, op.ID, op.ID, op.ID)
